@@ -78,7 +78,7 @@ Inductive handler :=
 | HTerm                                   (* terminal: returns nil without calling next (proxy, echo, close) *)
 | HCons (k : nat)                         (* io.ReadFull of k bytes from the connection, then next *)
 | HFail                                   (* returns an error *)
-| HWrap                                   (* next.Handle(cx.Wrap(cx.Conn)): a new Connection value is passed on *)
+| HWrap                                   (* next.Handle(cx.Wrap(cx)): a new Connection (empty buffer) reading through the old one *)
 | HSub (rs : list route) (timeout : Z)    (* l4subroute.Handler *)
 with route := Route (mss : list (list matcher)) (hs : list handler).
 
@@ -105,6 +105,7 @@ Variable net : Type.
 Variable now : net -> Z.                       (* time.Now(), ns *)
 Variable set_dl : option Z -> net -> net.      (* SetReadDeadline(t) / SetReadDeadline(time.Time{}) *)
 Variable nread : nat -> net -> rres * net.     (* Conn.Read(p), len p = n; may block (time passes inside net) *)
+Variable npush : list byte -> net -> net.      (* bytes a reader below the connection will deliver first (Connection.Wrap) *)
 
 Record st := { off : nat; avail : list byte; nt : net; tr : list (Z * ev) }.
 
@@ -184,7 +185,10 @@ Fixpoint chain (idx : nat) (hs : list handler) (next : st -> res) (s : st) : res
   | [] => next s
   | HTerm :: _ => Done s
   | HFail :: _ => Done (emit (EHErr depth idx) s)
-  | HWrap :: r => chain idx r next s
+  | HWrap :: r =>
+      (* Connection.Wrap: the new Connection starts with an empty matching buffer; the bytes still
+         buffered in the old one are delivered first by the reader below (the old Connection) *)
+      chain idx r next {| off := 0; avail := []; nt := npush (avail s) (nt s); tr := tr s |}
   | HCons k :: r =>
       match read_full_st k s with
       | (Some d, s') => chain idx r next (emit (ERead depth idx d) s')
@@ -276,9 +280,11 @@ Definition sread (max : nat) (n : snet) : rres * snet :=
   | ANetErr :: r => (RErr, r)
   end.
 
+Definition spush (b : list byte) (n : snet) : snet := match b with [] => n | _ => Chunk b :: n end.
+
 Definition s_init (pre : list byte) (n : snet) : st snet := {| off := 0; avail := pre; nt := n; tr := [] |}.
 Definition s_serve (fuel : nat) (rs : list route) (pre : list byte) (n : snet) : res snet :=
-  serve snet snow sset_dl sread fuel rs 0%Z (s_init pre n).
+  serve snet snow sset_dl sread spush fuel rs 0%Z (s_init pre n).
 
 (* scripted primitive matchers used by engines and examples *)
 Definition thr (k : nat) (v : verdict) : list byte -> verdict :=
